@@ -134,21 +134,6 @@ theorem packStep_noslot (P : Pack) (s : Nat) : ∀ j, noslot ((packStep P s).A.s
   · rename_i e; rw [e.1]; rfl
   · rfl
 
-/-- in a traversal order, a state strictly shallower than `cur` comes before it -/
-theorem before_of_depth_lt {A : Auto} {ord pre post : List Nat} {cur : Nat} (ho : OrderOK A ord) (hl : ord = pre ++ cur :: post)
-    (g : Nat) (h0 : 0 < g) (hg : g < A.states.size) (hd : (A.st g).depth < (A.st cur).depth) : g ∈ pre := by
-  have hgo : g ∈ ord := ho.complete g h0 hg
-  rw [hl] at hgo
-  rcases List.mem_append.mp hgo with h | h
-  · exact h
-  · exfalso
-    rcases List.mem_cons.mp h with h | h
-    · subst h; omega
-    · have hs := ho.sorted
-      rw [hl, List.pairwise_append] at hs
-      have := (List.pairwise_cons.mp hs.2.1).1 g h
-      omega
-
 /-- **`_yr_ac_build_transition_table`**: the packing invariant holds with every state popped -/
 theorem buildTransitionTable_I4 {A0 : Auto} {atoms : List (Nat × Atom)} (hT : Trie A0) (h3 : I3 A0 atoms) (hz0 : (A0.st 0).slot = 0) :
     ∃ ord, OrderOK A0 ord ∧ I4 A0 (buildTransitionTable A0) ord := by
